@@ -349,6 +349,13 @@ def r9(ctx):
     """'...and no reconnect intervened': see engine.session_start_resets."""
     session_start_resets(ctx)
 
+def r10(ctx):
+    """The one exception of 'immediately preceding' - a retransmission of the SELECT itself - is recognised by comparing the incoming
+    fragment with the LAST VALID REQUEST. A request that is executed but not recorded (so an older one is still 'last') makes the
+    retransmission of that older request look like a repeat that directly follows the SELECT. Recording is rule C05.R6 (shared)."""
+    import c05
+    c05.r6(ctx)
+
 RULES = [
     ("C04.R1", "T2", "every SelectState field is tested on the way to match_operate's Ok", r1),
     ("C04.R2", "T2", "actuation in handle_operate only under select is Some and match_operate is Ok", r2),
@@ -359,4 +366,5 @@ RULES = [
     ("C04.R7", "T7", "the status that arms OPERATE folds the status answered for every object and header", r7),
     ("C04.R8", "T8-namesake", "the outstation's configuration and session state are plumbed field-to-namesake (select_timeout, confirm_timeout, ...)", r_plumb),
     ("C04.R9", "T2", "per-session state is reset before a session's first await (a pre-empted session is dropped without clean-up)", r9),
+    ("C04.R10", "T8/T3", "every executed request is recorded as the last valid request (shared with C05.R6): the frame-id refresh relies on it", r10),
 ]
